@@ -6,6 +6,17 @@ import subprocess
 
 VERIF = os.path.dirname(os.path.dirname(os.path.abspath(__file__)))
 LEVELS = {
+    "C04": ("PARTIAL. Proved: every pressure equation has one +1 and one -1 at its interface's two cells, flipping the first cell's "
+            "orientation negates the row, zero re-insertion puts 0 exactly at the dropped cells' positions and keeps the other "
+            "entries in order, pressures reach the cells by dictionary position. Tested by the oracle only: side of the centre of "
+            "curvature, turning estimate (straight = 0, odd under reversal, within 3% on uniformly sampled arcs), zero-sum "
+            "least-squares optimality, linearity in the tensions, 0.9 correlation", "4/C04",
+            "Coq theorems on a Gallina model + differential correspondence + analytic oracle (partial)"),
+    "C07": ("PARTIAL. Proved: injective renumbering of vertices and arbitrary renumbering of cells renames the interface list and "
+            "changes nothing else (not even order); edge ids do not occur; pressure rows negate under a flip of the first cell. "
+            "Invariance under cyclic shifts / orientation flips / insertion order of vertices and edges is evaluated by the oracle "
+            "(interfaces, equations, tensions per cell pair, pressures per physical cell)", "4/C07",
+            "Coq theorem (renaming) + relabelling oracle (partial)"),
     "C10": ("state-machine model of the ForSys stores with symbolic result tokens; theorem for every history: frame t reports the "
             "token of the last matrix (re)build preceding its last solve, independent of everything else; stores keyed by frame; "
             "after every operation of random histories the implementation's stores are compared bitwise with fresh objects", "4/C10",
